@@ -2,7 +2,10 @@ use alloc::borrow::ToOwned;
 use core::{iter::Peekable, str::Chars};
 use ixdtf::parsers::{records::UtcOffsetRecordOrZ, IxdtfParser};
 
-use crate::{builtins::timezone::UtcOffset, TemporalError, TemporalResult, TimeZone};
+use crate::{
+    builtins::timezone::UtcOffset, utils::iso_days_in_month, TemporalError, TemporalResult,
+    TimeZone,
+};
 
 use super::{is_ambiguous_time_string, parse_ixdtf, ParseVariant};
 
@@ -20,12 +23,23 @@ pub(crate) fn parse_allowed_timezone_formats(s: &str) -> Option<TimeZone> {
         .map(|r| (r.offset, r.tz))
     {
         (offset, annotation)
-    } else if let Ok((offset, annotation)) =
-        parse_ixdtf(s, ParseVariant::YearMonth).map(|r| (r.offset, r.tz))
+    // NOTE: the short forms are only read, not validated, by the ixdtf parser.
+    } else if let Some((offset, annotation)) = parse_ixdtf(s, ParseVariant::YearMonth)
+        .ok()
+        .filter(|r| r.date.is_some_and(|d| (1..=12).contains(&d.month)))
+        .map(|r| (r.offset, r.tz))
     {
         (offset, annotation)
-    } else if let Ok((offset, annotation)) =
-        parse_ixdtf(s, ParseVariant::MonthDay).map(|r| (r.offset, r.tz))
+    } else if let Some((offset, annotation)) = parse_ixdtf(s, ParseVariant::MonthDay)
+        .ok()
+        .filter(|r| {
+            r.date.is_some_and(|d| {
+                // The reference year of a month-day is a leap year.
+                (1..=12).contains(&d.month)
+                    && (1..=iso_days_in_month(1972, d.month)).contains(&d.day)
+            })
+        })
+        .map(|r| (r.offset, r.tz))
     {
         (offset, annotation)
     } else {
